@@ -75,6 +75,39 @@ def generate():
     add('refractDefaultError', lambda: default_of(find_function(parse(lb), 'refract'), 'error'))
     add('parametricIterLimit', lambda: default_of(find_function(parse(nb), 'intersect_parametric'), 'iter_no_limit'))
     add('parametricTargetError', lambda: default_of(find_function(parse(nb), 'intersect_parametric'), 'target_error'))
+    def cone_coeff(fname):
+        fn = find_function(parse('odak/learn/raytracing/ray.py'), fname)
+        for st in ast.walk(fn):
+            if isinstance(st, ast.Assign) and isinstance(st.targets[0], ast.Name) and st.targets[0].id == 'theta':
+                src = ast.unparse(st.value)
+                # theta = acos(1 - <c> * rand(...) * (1 - cos_alpha))
+                v = st.value
+                if not (isinstance(v, ast.Call) and ast.unparse(v.func).endswith('acos')):
+                    raise TranslateError('theta is not an acos: ' + src)
+                e = v.args[0]
+                if not (isinstance(e, ast.BinOp) and isinstance(e.op, ast.Sub) and isinstance(e.left, ast.Constant) and e.left.value == 1):
+                    raise TranslateError('unexpected cone expression ' + src)
+                coeff, has_rand, has_cap = 1, False, False
+
+                def factors(x):
+                    if isinstance(x, ast.BinOp) and isinstance(x.op, ast.Mult):
+                        return factors(x.left) + factors(x.right)
+                    return [x]
+                for fct in factors(e.right):
+                    if isinstance(fct, ast.Constant) and isinstance(fct.value, (int, float)):
+                        coeff *= fct.value
+                    elif 'rand' in ast.unparse(fct):
+                        has_rand = True
+                    elif ast.unparse(fct).replace(' ', '') in ('1-cos_alpha', '(1-cos_alpha)'):
+                        has_cap = True
+                    else:
+                        raise TranslateError('unexpected factor %s in %s' % (ast.unparse(fct), src))
+                if not (has_rand and has_cap):
+                    raise TranslateError('unexpected cone expression ' + src)
+                return coeff
+        raise TranslateError(fname + ': theta assignment not found')
+    add('coneCoeffPoint', lambda: cone_coeff('create_ray_from_point_w_luminous_angle'))
+    add('coneCoeffGrid', lambda: cone_coeff('create_ray_from_grid_w_luminous_angle'))
     try:
         from . import colour_constants
         colour_constants.collect(add, defs, errors)
